@@ -634,6 +634,12 @@ def inline_helpers(repo: Repo, fi: FuncInfo, depth=2, _stack=(), keep=frozenset(
             if h is None or any((ap(d) or "") != "classmethod" for d in h.node.decorator_list):
                 return None, 0
             return (None, 0) if f.attr in keep else (h, 1)
+        if isinstance(f, ast.Attribute) and isinstance(f.value, ast.Name) and fi.cls is not None and f.attr.startswith("_") \
+                and not f.attr.startswith("__") and f.attr not in keep and len(repo.funcs.get(f.attr, [])) == 1:
+            # private helper of the same class invoked on another instance (a copy): the name is unique in the tree
+            h = repo.lookup_method(fi.cls, f.attr)
+            if h is not None and not h.node.decorator_list:
+                return h, 1
         if isinstance(f, ast.Name) and f.id not in keep:
             cands = [g for g in repo.funcs.get(f.id, []) if g.module is fi.module and g.cls is None
                      and g.parent_fn is None and not g.node.decorator_list]
@@ -667,9 +673,15 @@ def inline_helpers(repo: Repo, fi: FuncInfo, depth=2, _stack=(), keep=frozenset(
             if isinstance(x, (ast.Global, ast.Nonlocal, ast.Import, ast.ImportFrom, ast.Yield, ast.YieldFrom)):
                 return None
         rets = [x for x in walk(h.node) if isinstance(x, ast.Return)]
-        if len(rets) > 1 or (rets and rets[0] is not h.node.body[-1]):
+        void_guards = bool(rets) and all(r.value is None for r in rets) and kind == "expr"
+        if not void_guards and (len(rets) > 1 or (rets and rets[0] is not h.node.body[-1])):
             return None
         hfn = inline_helpers(repo, h, depth - 1, _stack + (fi.full,), keep) if depth > 1 else clone_ast(h.node, h.module.rel)
+        if void_guards:
+            stripped = _strip_void_returns(list(hfn.body))
+            if stripped is None:
+                return None
+            hfn.body = stripped or [ast.Pass()]
         body = list(hfn.body)
         if body and isinstance(body[0], ast.Expr) and isinstance(body[0].value, ast.Constant) and isinstance(body[0].value.value, str):
             body = body[1:]
@@ -707,8 +719,11 @@ def inline_helpers(repo: Repo, fi: FuncInfo, depth=2, _stack=(), keep=frozenset(
                     stored.add(x.name)
         stored.discard(hself)
         mapping, rename, prologue = {}, {n: pre + n for n in stored}, []
-        if hself and selfname and hself != selfname:
-            mapping[hself] = ast.Name(id=selfname, ctx=ast.Load())
+        recv = val.func.value.id if isinstance(val.func, ast.Attribute) and isinstance(val.func.value, ast.Name) else selfname
+        if hself and recv and hself != recv:
+            mapping[hself] = ast.Name(id=recv, ctx=ast.Load())
+            if hself in rename:
+                del rename[hself]
         for p, e in bound.items():
             if _simple_arg(e) and p not in stored:
                 mapping[p] = e
@@ -785,3 +800,36 @@ def as_pair(repo, mod, node):
             if len(vals) == 2:
                 return vals[fields[0]], vals[fields[1]]
     return None
+
+
+def _strip_void_returns(stmts):
+    """Rewrite `if c: ...; return` guard clauses of a value-less helper body into if/else nesting so that the
+    body can be spliced into a caller; None when a `return` sits anywhere else (loop, try, with)."""
+    out = []
+    for i, st in enumerate(stmts):
+        if isinstance(st, ast.Return):
+            return out if st.value is None else None
+        if isinstance(st, ast.If) and any(isinstance(x, ast.Return) for x in ast.walk(st)):
+            body = _strip_void_returns(st.body)
+            orelse = _strip_void_returns(st.orelse) if st.orelse else []
+            if body is None or orelse is None:
+                return None
+            rest = _strip_void_returns(stmts[i + 1:])
+            if rest is None:
+                return None
+            body_exits = bool(st.body) and isinstance(st.body[-1], ast.Return)
+            else_exits = bool(st.orelse) and isinstance(st.orelse[-1], ast.Return)
+            if body_exits and not else_exits:
+                new = ast.If(test=st.test, body=body or [ast.Pass()], orelse=orelse + rest)
+            elif else_exits and not body_exits:
+                new = ast.If(test=st.test, body=body + rest or [ast.Pass()], orelse=orelse)
+            elif body_exits and else_exits:
+                new = ast.If(test=st.test, body=body or [ast.Pass()], orelse=orelse)
+            else:
+                return None   # return nested deeper than a guard clause
+            out.append(ast.copy_location(new, st))
+            return out
+        if any(isinstance(x, ast.Return) for x in ast.walk(st) if not isinstance(st, FUNC_TYPES)):
+            return None
+        out.append(st)
+    return out
